@@ -331,6 +331,18 @@ class Check:
             ax = print_assumptions(os.path.join(COQ, pf))
             for n in names:
                 self.obligations.append((n, True, ax.get(n, [])))
+            if self.tier == 'thorough' and os.environ.get('VERIF_NO_COQCHK') != '1':
+                # independent re-check of the compiled property file and everything it depends on
+                t0 = time.time()
+                rc, out, err = sh(['coqchk', '-silent', '-o', '-Q', '.', 'GV', 'GV.' + pf[:-2]], cwd=COQ, timeout=3600)
+                txt = (out.decode(errors='replace') + err.decode(errors='replace'))
+                self.extra['coqchk'] = {'rc': rc, 'wall_s': round(time.time() - t0, 1),
+                                        'report': [l.rstrip() for l in txt[txt.find('* Theory'):].splitlines() if l.strip()][:40]}
+                log('coqchk %s rc=%s %.0fs' % (pf, rc, time.time() - t0))
+                if rc != 0:
+                    self.failed_theorems = list(names)
+                    self.coq_log_tail = txt[-3000:]
+                    return False
             return True
         locs = coq_failure_location(text)
         self.extra['coq_errors'] = [{'file': f, 'line': l, 'error': m} for f, l, m in locs][:10]
